@@ -13,16 +13,20 @@ WHICH = os.environ.get("C02_BATTERY_PROP", "C02")
 NAMES = ["a", "b"]
 
 
+SMALL = [False]   # True: every read_events() call gets a buffer that holds exactly one record (names < 16 bytes), i.e. the
+                  # reader wakes between any two records - in particular between the two halves of a rename
+
+
 def drain(ino):
     """read until nothing is pending (poll with zero timeout first, so the call never blocks)"""
     import select
     out = []
-    for _ in range(50):
+    for _ in range(400 if SMALL[0] else 50):
         p = select.poll()
         p.register(ino._inotify_fd, select.POLLIN)
         if not p.poll(1):
             break
-        out.extend(ino.read_events())
+        out.extend(ino.read_events(event_buffer_size=32) if SMALL[0] else ino.read_events())
     return out
 
 
@@ -74,7 +78,8 @@ def dirs_under(root):
     return out
 
 
-def run_history(ops, recursive=True, inject=None):
+def run_history(ops, recursive=True, inject=None, small=False):
+    SMALL[0] = small
     base = tempfile.mkdtemp(prefix="c02b")
     root, out = os.path.join(base, "root"), os.path.join(base, "out")
     os.mkdir(root)
@@ -168,7 +173,7 @@ NAMED = {
 def main():
     if REPLAY is not None:
         c = REPLAY
-        pr, kn = run_history([tuple(o) for o in c["ops"]], c.get("recursive", True), tuple(c["inject"]) if c.get("inject") else None)
+        pr, kn = run_history([tuple(o) for o in c["ops"]], c.get("recursive", True), tuple(c["inject"]) if c.get("inject") else None, c.get("small", False))
         replay_result(bool(pr if c.get("expect") != "known" else kn), (pr or kn)[:2])
     L = 3 if TIER == "quick" else 4
     bat = Battery({"names": NAMES + ["pre", "a2"], "history length": L, "operations": "mkdir, nested mkdir, rmdir, rename, move out, move in, remove moved-out, touch", "pacing": "reader drained after every operation", "probes": "every directory of the final tree",
@@ -189,6 +194,12 @@ def main():
                     bat.fail(f"{WHICH}.moved-in-directory-not-watched", m, {"ops": [list(o) for o in ops], "recursive": recursive, "expect": "known"}, "Inotify.read_events")
             if pr:
                 bat.fail(f"{WHICH}.history", pr[0], {"ops": [list(o) for o in ops], "recursive": recursive, "problems": pr[:2]}, "Inotify.read_events")
+    # the same histories with the reader waking between any two records (one record per read batch)
+    for ops in hs[: (60 if TIER == "quick" else 1500)]:
+        bat.case(hash((ops, "one-record-per-read")), desc={"ops": [list(o) for o in ops], "recursive": True, "reads": "one record per read_events() call"})
+        pr, kn = run_history(list(ops), True, None, True)
+        if pr:
+            bat.fail(f"{WHICH}.history(one record per read)", pr[0], {"ops": [list(o) for o in ops], "recursive": True, "small": True, "problems": pr[:2]}, "Inotify.read_events")
     burst = [("mkdir", "a"), ("mkdir2", "a", "b"), ("mkdir", "b"), ("mkdir2", "b", "a"), ("touch", "a"), ("burst", "c")]
     for pos in (1, 2, 3, 4, 5, 6):
         for err in (errno.ENOSPC, errno.ENOENT):
